@@ -53,6 +53,11 @@ inductive Act
   | load (t : Nat)
   /-- second half: `open_txs_count.store(c - 1)` -/
   | store (t : Nat)
+  /-- a `TxCounter::drop` whose thread-local bookkeeping FORGETS the nesting: the global counter is
+      decremented but the thread's entry is removed (set to 0) instead of counted down - what the
+      code would do if it dropped the `THREAD_TX_COUNTS` entry on every leave.  Not in the atomic
+      alphabet of the code as it is; used by `lost_nesting_witness`. -/
+  | leaveForget (t : Nat)
   /-- `maybe_resize` decided to resize: `resizing = true` -/
   | request
   /-- the resizer saw `open_txs_count == 0`: `env.resize`, `resizing = false` -/
@@ -63,6 +68,7 @@ deriving Repr, DecidableEq
 def Act.atomic : Act → Bool
   | .load _ => false
   | .store _ => false
+  | .leaveForget _ => false
   | _ => true
 
 def thOf : Nat → List Th → Th
@@ -81,6 +87,7 @@ def enabled (s : St) : Act → Bool
   | .leave t => decide (t < s.ths.length) && decide ((thOf t s.ths).opened > 0) && (thOf t s.ths).reg.isNone
   | .load t => decide (t < s.ths.length) && decide ((thOf t s.ths).opened > 0) && (thOf t s.ths).reg.isNone
   | .store t => decide (t < s.ths.length) && (thOf t s.ths).reg.isSome
+  | .leaveForget t => decide (t < s.ths.length) && decide ((thOf t s.ths).opened > 0) && (thOf t s.ths).reg.isNone
   | .request => !s.resizing
   | .resize => s.resizing && decide (s.counter = 0)
 
@@ -99,6 +106,9 @@ def step (s : St) : Act → St
     match th.reg with
     | some c => { s with counter := c - 1, ths := setTh t { th with reg := none } s.ths }
     | none => s
+  | .leaveForget t =>
+    let th := thOf t s.ths
+    { s with counter := s.counter - 1, ths := setTh t { th with opened := 0 } s.ths }
   | .request => { s with resizing := true }
   | .resize => { s with resizing := false, resizes := s.resizes + 1 }
 
@@ -114,6 +124,43 @@ def openTotal (s : St) : Nat := (s.ths.map (·.opened)).sum
 
 /-- every thread has closed everything it opened and no decrement is half done -/
 def quiescent (s : St) : Bool := s.ths.all (fun th => th.opened == 0 && th.reg.isNone)
+
+/-- The thread's nesting depth (`THREAD_TX_COUNTS[env]`): `enter_tx` treats the thread as "inside a
+transaction" - and lets it pass while a resize is pending - iff this is positive. -/
+def depth (s : St) (t : Nat) : Nat := (thOf t s.ths).opened
+
+/-- what the schedule says thread `t` has open, starting from `k`: +1 per enter, -1 per leave -/
+def opensFrom (t : Nat) : Nat → List Act → Nat
+  | k, [] => k
+  | k, .enter u :: r => opensFrom t (if u = t then k + 1 else k) r
+  | k, .leave u :: r => opensFrom t (if u = t then k - 1 else k) r
+  | k, _ :: r => opensFrom t k r
+
+/-- … from the beginning: the thread's enters minus its leaves -/
+def opensOf (t : Nat) (acts : List Act) : Nat := opensFrom t 0 acts
+
+/-- schedule token of the driver line `kv txseq`: `e<t>` enter, `l<t>` leave, `q` request, `w` resize -/
+def parseAct (tok : String) : Option Act :=
+  if tok = "q" then some .request
+  else if tok = "w" then some .resize
+  else if tok.startsWith "e" then ((tok.drop 1).toString.toNat?).map Act.enter
+  else if tok.startsWith "l" then ((tok.drop 1).toString.toNat?).map Act.leave
+  else none
+
+/-- index of the first transition of a schedule that is not enabled, if any -/
+def firstStuck : St → List Act → Nat → Option Nat
+  | _, [], _ => none
+  | s, a :: r, i => if enabled s a then firstStuck (step s a) r (i + 1) else some i
+
+/-- verdict on a schedule the harness really performed (every operation returned): the model must
+be able to take every step, end with nothing open and the counter at 0 -/
+def replay (threads : Nat) (acts : List Act) : String :=
+  match firstStuck (init threads) acts 0 with
+  | some i => s!"stuck-at-{i}"
+  | none =>
+    match runChecked (init threads) acts with
+    | some s => if s.counter = 0 && quiescent s && !s.resizing then s!"completed:resizes={s.resizes}" else s!"open:counter={s.counter}"
+    | none => "stuck"
 
 /-! ### a seeded scheduler for the driver (`conc txcount` lines) -/
 
